@@ -362,11 +362,16 @@ class Open(State):
 
         self.association.tracking_events()
 
+        #: Both release signals end the tick: processing queued traffic 
+        #: afterwards would put the state machine back into Open and the 
+        #: DPR would be sent again on every following tick.
         if self.is_set_release_signal_from_peer():
             self.event_open_peer_disc()      
+            return
 
         if self.is_set_release_signal_from_local():
             self.event_stop()
+            return
 
         if self.has_send_queue_message():
             self.make_default_logging(queue="send")
